@@ -98,6 +98,20 @@ def run(ctx):
                 first = min((d for s in spas if s["id"] in ids_listed for (bn, d, c_) in s["replies"] if c_ > 0 for d in [bn * 1.1 + d]), default=None)
                 if first is not None and r["duration"] > first + 0.1 * (1 + len(r["labels"]) // 3) + 0.45 + sum(dt for _, dt in stalls) + hd * (1 + len(ids_listed)):
                     prob = "requested spa answered after %.2f s but discovery returned only after %.2f s (the client's handler accounts for %.2f s per listed spa)" % (first, r["duration"], hd)
+        if prob is None:
+            # completeness: a spa whose (filter-passing) reply reached the socket well before discovery returned is listed
+            arrivals = {}
+            t_now = 0
+            for l in r["labels"]:
+                if l[0] == "M":
+                    t_now = l[1] / 1e6
+                elif l[0] == "A":
+                    arrivals.setdefault(l[1], t_now)
+            for sid, t_arr in arrivals.items():
+                passes = (fid is None or sid.decode() == fid)
+                npending = len(arrivals)
+                if passes and sid not in ids_listed and r["duration"] - t_arr > 0.35 + 0.11 * len(r["labels"]) ** 0.5 + hd * (1 + npending) + sum(dt for _, dt in stalls):
+                    prob = "responding spa %r (reply at the socket %.2f s after the start, discovery returned after %.2f s) is not listed" % (sid, t_arr, r["duration"])
         if prob is None and r["events"].count("LOCATING_DISCOVERED_SPA") != len(ids_listed):
             prob = "announced spas (%d LOCATING_DISCOVERED_SPA events) and listed spas (%d) differ" % (r["events"].count("LOCATING_DISCOVERED_SPA"), len(ids_listed))
         if prob:
